@@ -159,6 +159,22 @@ CHECKS = {
     note=TRUSTED + "Exons of one gene disjoint; fuzzy positions outside the model; the genetic code enters only through the observed "
          "extract+translate boolean; build_hits driven by fake search results. Two known findings remain (reverse-strand origin-spanning "
          "genes listed in ascending part order; TTA marker on multi-exon genes)."),
+ "C02": dict(
+    text=("RuleGrammar.tla holds a reference tokeniser and recursive-descent parser transcribed from the documented grammar (not > "
+          "and > or, groups, cds, minimum, minscore, section order, DEFINE as textual substitution, 27 error classes) and the parser "
+          "state machine (aliases, rules, files that extend the state or fail as a whole; kb*1000*multiplier; transitive SUPERIORS). "
+          "TLC checks on the model that every parenthesisation style of every generated tree reads back as that tree, that alias use "
+          "equals inlining, that constructed multi-file states are what Denote yields, that constructive corruptions are ill-formed "
+          "and that tokenisation is independent of separators/comments; its states (13 k quick, 300 k thorough: trees x styles x "
+          "separators, superiors chains over 1-3 files x multipliers, alias cases, optional sections, every constructive "
+          "ill-formedness class and every single-token delete/duplicate/swap/replace/insert/truncate edit of base texts) are parsed "
+          "by Parser / create_rules / Ruleset.from_files. RuleGrammar_Trace re-runs Denote on the logged tokens to decide each result, "
+          "the round trip through reconstruct_rule_text, and, statefully, every item of the shipped strict/relaxed/loose rule files "
+          "plus get_ruleset's scaling."),
+    design="6/C02", technique="TLA+ spec (RuleGrammar.tla) + TLC model checking (generator, round-trip/meta invariants, negative control) + TLC trace validation of real parses incl. a stateful trace of the shipped rule files",
+    note=TRUSTED + "Closed vocabulary (6 profiles, ASCII), fixed DESCRIPTION/EXAMPLE payloads, exact binary multipliers. Five documented "
+         "either-way bands where the documentation is silent. Depth-3 trees are sampled. One known finding remains (P22: unknown "
+         "profile names inside EXTENDERS are accepted; the two-line repair breaks a test of the repository)."),
 }
 CHECKS_END = None
 NOT_BUILT = "not built yet (work in progress, see DESIGN.md section 10 build order)"
